@@ -381,7 +381,9 @@ async def _run_case(net, case, base):
         write_speed_limit_per_connection=thr.get("conn_write"),
         **kw,
     )
-    await server.start("127.0.0.1", 2121)
+    simulated = isinstance(net, simnet.Network)
+    await server.start("127.0.0.1", 2121 if simulated else 0)
+    PORT = server.server_port
     store = Store(backend, server, base)
     verb = case["verb"]
     payload, offset, old = case["payload"], case["offset"], case["old"]
@@ -396,7 +398,7 @@ async def _run_case(net, case, base):
     session = {"n": 0}
 
     def on_connect(ct, st):
-        ctrl = st.listener_port == 2121
+        ctrl = st.listener_port == PORT
         if ctrl:
             session["n"] += 1
         # only the first session's links are perturbed; the second session is the observer
@@ -426,7 +428,7 @@ async def _run_case(net, case, base):
         **ckw,
     )
     try:
-        await client.connect("127.0.0.1", 2121)
+        await client.connect("127.0.0.1", PORT)
         await client.login()
         # transfers issued earlier in the same session (e.g. a completed REST + transfer pair)
         for pverb, poff in case["pre"]:
@@ -455,7 +457,7 @@ async def _run_case(net, case, base):
         res["t_done"] = asyncio.get_running_loop().time()
         # a SECOND session observes
         obs = aioftp.Client(passive_commands=("epsv",))
-        await obs.connect("127.0.0.1", 2121)
+        await obs.connect("127.0.0.1", PORT)
         await obs.login()
         st = await obs.stat(FNAME)
         res["stat_size"] = int(st["size"])
@@ -476,6 +478,33 @@ async def _run_case(net, case, base):
     res["seg_down"] = [n for s in segs["data_down"][-1:] for n in s.log]
     res["open_transports"] = len(net.open_transports())
     return res
+
+
+class RealNet:
+    """stand-in for simnet.Network when a case runs over real loopback TCP (thorough tier): no
+    control over segmentation or time, the kernel decides"""
+
+    on_connect = None
+
+    async def settle(self):
+        await asyncio.sleep(0.005)
+
+    def open_transports(self):
+        return []
+
+
+def run_case_tcp(case):
+    case = case_defaults(case)
+    base = None
+    if case["backend"] in ("pathio", "asyncpathio"):
+        TMP_ROOT.mkdir(parents=True, exist_ok=True)
+        base = TMP_ROOT / f"c01-{os.getpid()}-{random.getrandbits(48):012x}"
+        base.mkdir()
+    try:
+        return asyncio.run(asyncio.wait_for(_run_case(RealNet(), case, base), 60))
+    finally:
+        if base is not None:
+            shutil.rmtree(base, ignore_errors=True)
 
 
 def smoke():
@@ -835,6 +864,21 @@ def gen_session_cases(ctx, scale):
             payload = b"0123456789abcdef"
             add(verb=verb, payload=payload, offset=0, old=b"OLDOLDOLD" if verb != "RETR" else None, block_size=4, pre=pre,
                 passive=next(toggle), _plabel="after-rest-pair")
+    # -- 8. payloads beyond the 64 KiB flow-control mark (drain() blocks, reading is paused/resumed)
+    big_specs = [
+        ("STOR", "memory", {"kind": "random", "seed": rng.randrange(10**6), "max": 3000}, None, None),
+        ("RETR", "memory", {"kind": "whole"}, {"client_read": 20000}, 3000),
+        ("APPE", "pathio", {"kind": "whole"}, None, None),
+        ("RETR", "pathio", {"kind": "random", "seed": rng.randrange(10**6), "max": 5000}, None, None),
+        ("STOR", "memory", {"kind": "whole"}, {"server_read": 30000}, None),
+        ("STOR", "memory", {"kind": "whole"}, None, None),
+    ]
+    for verb, backend, seg, thr, cb in big_specs if thorough else big_specs[:4]:
+        payload = rng.randbytes(70000 + rng.randrange(0, 9000))
+        old = rng.randbytes(100) if verb != "RETR" else None
+        add(verb=verb, payload=payload, offset=rng.choice([0, 50, 100]) if verb != "RETR" else rng.choice([0, 65536, 70001]), old=old,
+            backend=backend, seg_data=seg, throttle=thr, cblock=cb, passive=next(toggle),
+            chunks=rng.choice([[], [20000, 1, 30000]]) if verb != "RETR" else [], _plabel="over-64KiB")
     # and a REST that is cancelled by a later non-transfer command before the transfer (whole file)
     add(verb="RETR", payload=b"0123456789", offset=0, block_size=4, pre=[("CMD", "REST 3"), ("CMD", "TYPE I")], _plabel="rest-then-type")
     return cases
@@ -889,14 +933,31 @@ def check_case(ctx, case, res, model_out, stream="session"):
         ctx.notes.append(f"simnet: {res['open_transports']} transports left open after a C01 case (not a C01 matter)")
 
 
-def session_stream(ctx, xcheck, scale):
+def session_stream(ctx, xcheck, scale, reps=1):
     rng = ctx.rng
-    cases = gen_session_cases(ctx, scale)
+    cases = []
+    for _ in range(reps):
+        cases += gen_session_cases(ctx, scale)
     results = []
     for case in cases:
         res = run_case({k: v for k, v in case.items() if not k.startswith("_")})
         ctx.traces_impl += 1
         results.append(res)
+    if ctx.tier == "thorough":
+        # second driver: the same cases over real loopback TCP (no simulated segmentation / time)
+        plain = [c for c in cases if c.get("backend", "memory") in ("memory", "pathio") and not c.get("throttle") and not c.get("latency")
+                 and c.get("seg_data", {"kind": "whole"})["kind"] == "whole" and not c.get("pre")]
+        tcp = rng.sample(plain, min(300, len(plain)))
+        for case in tcp:
+            c2 = dict(case)
+            c2["_plabel"] = case.get("_plabel", "other")
+            c2["_tcp"] = True
+            res = run_case_tcp({k: v for k, v in case.items() if not k.startswith("_")})
+            ctx.traces_impl += 1
+            res["seg_up"], res["seg_down"] = [], []
+            cases.append(c2)
+            results.append(res)
+        ctx.count("loopback_tcp_cases", len(tcp))
     # model side, with the segmentation the network really applied
     model_in = []
     for case, res in zip(cases, results):
@@ -908,7 +969,7 @@ def session_stream(ctx, xcheck, scale):
     model_out = ctx.model(model_in)
     for case, res, (fn, args), mo in zip(cases, results, model_in, model_out):
         c = case_defaults(case)
-        ctx.case(("session", repr(sorted(jsonable({k: v for k, v in c.items() if not k.startswith("_")}).items()))))
+        ctx.case(("session", case.get("_tcp", False), repr(sorted(jsonable({k: v for k, v in c.items() if not k.startswith("_")}).items()))))
         ctx.count("verb_" + c["verb"])
         ctx.count("backend_" + c["backend"])
         ctx.count("passive_" + c["passive"])
@@ -1000,7 +1061,7 @@ def correspondence(ctx, scale=None):
     )
     xcheck = []
     pure_streams(ctx, xcheck, scale)
-    session_stream(ctx, xcheck, scale)
+    session_stream(ctx, xcheck, scale, reps=6 if thorough else 1)
     offset_stream(ctx, xcheck)
     ok, out = core.vm_crosscheck(EXTRACT, xcheck[:100])
     ctx.extra["vm_compute_crosscheck"] = {"cases": len(xcheck[:100]), "agree": ok}
